@@ -360,3 +360,136 @@ Proof.
   apply andb_true_iff in Hblk as [_ Hbody].
   destruct (body_run (bi_in info) body) eqn:E; [|discriminate]. eapply body_run_no_phi; eauto.
 Qed.
+
+(* ---------- every read is preceded, on every path, by its definition ---------- *)
+Definition sets (s : stmt) (k : key) (n : N) : Prop :=
+  exists x, stmt_def s = Some x /\ key_of x = k /\ vn_version x = Some n.
+
+Lemma track_vget m s k n : vget (track m s) k = Some n -> vget m k = Some n \/ sets s k n.
+Proof.
+  unfold track. destruct (stmt_def s) as [x|] eqn:Ed; [|auto].
+  destruct (vn_version x) as [n'|] eqn:Ev; [|auto].
+  rewrite vget_vset. destruct (key_eqb (key_of x) k) eqn:Ek; [|auto].
+  intros [= <-]. right. exists x. apply key_eqb_eq in Ek. auto.
+Qed.
+
+Lemma apply_phis_vget phis : forall m k n, vget (apply_phis m phis) k = Some n ->
+  vget m k = Some n \/ exists s, In s phis /\ sets s k n.
+Proof.
+  unfold apply_phis. induction phis as [|s tl IH]; intros m k n; cbn [fold_left]; [auto|].
+  intros H. destruct (IH _ _ _ H) as [H1|(s' & Hin & Hs)].
+  - destruct (track_vget _ _ _ _ H1) as [H2|H2]; [auto|]. right. exists s. split; [left; reflexivity|exact H2].
+  - right. exists s'. split; [right; exact Hin|exact Hs].
+Qed.
+
+Lemma body_run_vget ss : forall m m' k n, body_run m ss = Some m' -> vget m' k = Some n ->
+  vget m k = Some n \/ exists s, In s ss /\ sets s k n.
+Proof.
+  induction ss as [|s tl IH]; intros m m' k n; cbn [body_run].
+  - intros [= <-]. auto.
+  - destruct (body_stmt_ok m s); [|discriminate]. intros Hr Hv.
+    destruct (IH _ _ _ _ Hr Hv) as [H1|(s' & Hin & Hs)].
+    + destruct (track_vget _ _ _ _ H1) as [H2|H2]; [auto|]. right. exists s. split; [left; reflexivity|exact H2].
+    + right. exists s'. split; [right; exact Hin|exact Hs].
+Qed.
+
+(* the running map in front of a statement of the body *)
+Lemma body_run_split pre s post : forall m m', body_run m (pre ++ s :: post) = Some m' ->
+  exists m1, body_run m pre = Some m1 /\ body_stmt_ok m1 s = true.
+Proof.
+  induction pre as [|x tl IH]; intros m m'; cbn [app body_run].
+  - destruct (body_stmt_ok m s) eqn:E; [|discriminate]. intros _. exists m. auto.
+  - destruct (body_stmt_ok m x); [|discriminate]. apply IH.
+Qed.
+
+Lemma leading_phis_app ss : forall phis body, leading_phis ss = (phis, body) -> ss = phis ++ body.
+Proof.
+  induction ss as [|s tl IH]; intros phis body; cbn [leading_phis].
+  - intros [= <- <-]. reflexivity.
+  - destruct (is_phi_stmt s).
+    + destruct (leading_phis tl) as [p b] eqn:El. intros [= <- <-]. cbn [app]. f_equal. apply IH. reflexivity.
+    + intros [= <- <-]. reflexivity.
+Qed.
+
+Lemma enter_block_vget L b L' k n : enter_block L b = Some L' -> vget L' k = Some n ->
+  vget L k = Some n \/ exists s, In s (b_stmts b) /\ sets s k n.
+Proof.
+  unfold enter_block. destruct (leading_phis (b_stmts b)) as [phis body] eqn:El.
+  destruct (forallb (phi_read_ok L) phis); [|discriminate]. intros Hr Hv.
+  pose proof (leading_phis_app _ _ _ El) as Happ.
+  destruct (body_run_vget _ _ _ _ _ Hr Hv) as [H1|(s & Hin & Hs)].
+  - destruct (apply_phis_vget _ _ _ _ H1) as [H2|(s & Hin & Hs)]; [auto|].
+    right. exists s. split; [rewrite Happ; apply in_or_app; left; exact Hin|exact Hs].
+  - right. exists s. split; [rewrite Happ; apply in_or_app; right; exact Hin|exact Hs].
+Qed.
+
+Definition defined_on (c : cfg) (pi : list nat) (k : key) (n : N) : Prop :=
+  exists j b s, In j pi /\ nth_error (c_blocks c) j = Some b /\ In s (b_stmts b) /\ sets s k n.
+
+Lemma exec_path_vget c : forall pi L L' k n, exec_path c L pi = Some L' -> vget L' k = Some n ->
+  vget L k = Some n \/ defined_on c pi k n.
+Proof.
+  induction pi as [|i tl IH]; intros L L' k n; cbn [exec_path].
+  - intros [= <-]. auto.
+  - destruct (nth_error (c_blocks c) i) as [b|] eqn:Eb; [|discriminate].
+    destruct (enter_block L b) as [L1|] eqn:Ee; [|discriminate]. intros Hr Hv.
+    destruct (IH _ _ _ _ Hr Hv) as [H1|(j & b' & s & Hj & Hb' & Hs & Hset)].
+    + destruct (enter_block_vget _ _ _ _ _ Ee H1) as [H2|(s & Hin & Hs)]; [auto|].
+      right. exists i, b, s. repeat split; auto. left. reflexivity.
+    + right. exists j, b', s. repeat split; auto. right. exact Hj.
+Qed.
+
+Lemma exec_path_app c : forall pi1 pi2 L L', exec_path c L (pi1 ++ pi2) = Some L' ->
+  exists L1, exec_path c L pi1 = Some L1 /\ exec_path c L1 pi2 = Some L'.
+Proof.
+  induction pi1 as [|i tl IH]; intros pi2 L L'; cbn [app exec_path].
+  - intros H. exists L. auto.
+  - destruct (nth_error (c_blocks c) i) as [b|]; [|discriminate].
+    destruct (enter_block L b) as [L1|]; [|discriminate]. apply IH.
+Qed.
+
+(* On every path from the entry that ends in the block of the read, the version
+   a read names has been assigned on that path (or is the parameter's version,
+   or is the fresh base version of an element-wise update): hence the unique
+   defining statement dominates the read. *)
+Theorem ssa_check_read_defined_on_path c idom pi bi b s v n :
+  ssa_check c idom = true -> path_from_entry c (pi ++ [bi]) ->
+  nth_error (c_blocks c) bi = Some b -> In s (b_stmts b) -> is_phi_stmt s = false ->
+  In v (stmt_reads s) -> vn_version v = Some n ->
+  update_base s = Some v \/
+  vget (params_map (c_params c)) (key_of v) = Some n \/
+  defined_on c (pi ++ [bi]) (key_of v) n.
+Proof.
+  intros Hc Hp Hb Hs Hnphi Hv Hn.
+  destruct (ssa_check_paths_ok c idom _ Hc Hp) as [Lf Hex].
+  destruct (exec_path_app c pi [bi] _ _ Hex) as (L1 & Hpre & Hlast).
+  cbn [exec_path] in Hlast. rewrite Hb in Hlast.
+  destruct (enter_block L1 b) as [L2|] eqn:Ee; [|discriminate]. clear Hlast.
+  unfold enter_block in Ee. destruct (leading_phis (b_stmts b)) as [phis body] eqn:El.
+  destruct (forallb (phi_read_ok L1) phis) eqn:Ephi; [|discriminate].
+  pose proof (leading_phis_app _ _ _ El) as Happ.
+  (* s is in the body (it is not a phi) *)
+  assert (Hsb : In s body).
+  { rewrite Happ in Hs. apply in_app_or in Hs as [Hs|Hs]; [|exact Hs].
+    pose proof (leading_phis_are_phis _ _ _ El) as Hf. rewrite Forall_forall in Hf. specialize (Hf s Hs). congruence. }
+  apply in_split in Hsb as (pre & post & Hsplit). rewrite Hsplit in Ee.
+  destruct (body_run_split pre s post _ _ Ee) as (m1 & Hm1 & Hok).
+  unfold body_stmt_ok in Hok. apply andb_true_iff in Hok as [_ Hreads]. rewrite forallb_forall in Hreads.
+  specialize (Hreads v Hv). unfold read_ok in Hreads. rewrite Hn in Hreads.
+  destruct (vget m1 (key_of v)) as [n'|] eqn:Eg.
+  - apply N.eqb_eq in Hreads. subst n'.
+    (* trace the version back through the prefix of the body, the phis and the path *)
+    destruct (body_run_vget _ _ _ _ _ Hm1 Eg) as [H1|(s' & Hin & Hset)].
+    + destruct (apply_phis_vget _ _ _ _ H1) as [H2|(s' & Hin & Hset)].
+      * destruct (exec_path_vget c pi _ _ _ _ Hpre H2) as [H3|(j & b' & s' & Hj & Hb' & Hs' & Hset)].
+        -- right. left. exact H3.
+        -- right. right. exists j, b', s'. repeat split; auto. apply in_or_app. left. exact Hj.
+      * right. right. exists bi, b, s'. repeat split; auto.
+        -- apply in_or_app. right. left. reflexivity.
+        -- rewrite Happ. apply in_or_app. left. exact Hin.
+    + right. right. exists bi, b, s'. repeat split; auto.
+      * apply in_or_app. right. left. reflexivity.
+      * rewrite Happ, Hsplit. apply in_or_app. right. apply in_or_app. left. exact Hin.
+  - destruct (update_base s) as [w|] eqn:Eu; [|discriminate]. left. f_equal.
+    apply vname_eqb_true_eq. exact Hreads.
+Qed.
